@@ -25,7 +25,7 @@ ASSUMPTIONS = ['formulas come from a total sub-grammar (+, *, SUM, IF, MAX, comp
                '(which rewrites neighbouring translations) is excluded', 'values are compared with == and by blank-ness']
 
 L = wbk.get_column_letter
-FORMULAS = ['=A1+B1', '=A1*2+1', '=SUM(A1:B3)', '=IF(A1>2,B1,A2)', '=MAX(A1:C2)', '=A1>B1', '=B2', '=SUM(A1:A3)*2', '={o}!A1+1', '=SUM({o}!A1:B2)',
+FORMULAS = ['=A1+B1', '=A1*2+1', '=SUM(A1:B3)', '=IF(A1>2,B1,A2)', '=MAX(A1:C2)', '=A1>B1', '=B2', '=SUM(A1:A3)*2', "='{o}'!A1+1", "=SUM('{o}'!A1:B2)",
             '={p}+1', '={p}*{p}', '=C9', '=COUNT(A1:C3)']
 
 
@@ -81,15 +81,15 @@ def reference_table(wb, overrides):
 
     def ev(si, text, depth):
         import re
-        m = re.fullmatch(r'=(?:(\w+)!)?([A-Z])(\d+)\+(?:(\w+)!)?([A-Z])(\d+)', text)
+        m = re.fullmatch(r"=(?:'?(\w+)'?!)?([A-Z])(\d+)\+(?:'?(\w+)'?!)?([A-Z])(\d+)", text)
         if m:
             a = cell_value(wb['titles'].index(m.group(1)) if m.group(1) else si, ord(m.group(2)) - 64, int(m.group(3)), depth)
             b = cell_value(wb['titles'].index(m.group(4)) if m.group(4) else si, ord(m.group(5)) - 64, int(m.group(6)), depth)
             return F.to_num(a) + F.to_num(b)
-        m = re.fullmatch(r'=(?:(\w+)!)?([A-Z])(\d+)\+1', text)
+        m = re.fullmatch(r"=(?:'?(\w+)'?!)?([A-Z])(\d+)\+1", text)
         if m:
             return F.to_num(cell_value(wb['titles'].index(m.group(1)) if m.group(1) else si, ord(m.group(2)) - 64, int(m.group(3)), depth)) + 1
-        m = re.fullmatch(r'=SUM\((?:(\w+)!)?([A-Z])(\d+):([A-Z])(\d+)\)', text)
+        m = re.fullmatch(r"=SUM\((?:'?(\w+)'?!)?([A-Z])(\d+):([A-Z])(\d+)\)", text)
         if m:
             s2 = wb['titles'].index(m.group(1)) if m.group(1) else si
             tot = 0
@@ -125,7 +125,10 @@ def replay(history, counter=None):
     ov_cells = [mk(wb, k, 'a1' if i % 2 else 'num', wbk.dec(v)) for i, (k, v) in enumerate(overrides)]
     ex = tr.executor()
     if ov_cells:
-        ex.set_cells(ov_cells)
+        o_set = wbk.outcome(lambda: ex.set_cells(ov_cells))
+        if o_set[0] not in ('value', 'timeout'):
+            fail('overrides-are-accepted-under-every-addressing', 'set_cells:raises:' + o_set[1], 'set_cells succeeds', wbk.show_outcome(o_set))
+            return fails
     keys = set(wb['cells']) | {k for k, _ in overrides}
     for si in range(len(wb['titles'])):
         mc, mr = used_range(wb, overrides, si)
@@ -135,10 +138,12 @@ def replay(history, counter=None):
     # the model: one fresh executor per cell
     table = {}
     for k in sorted(keys):
-        e1 = tr.executor()
-        if overrides:
-            e1.set_cells([mk(wb, kk, 'num', wbk.dec(v)) for kk, v in overrides])
-        table[k] = wbk.outcome(lambda: e1.get_cell(mk(wb, k, 'num')).value)
+        def one(k=k):
+            e1 = tr.executor()
+            if overrides:
+                e1.set_cells([mk(wb, kk, 'num', wbk.dec(v)) for kk, v in overrides])
+            return e1.get_cell(mk(wb, k, 'num')).value
+        table[k] = wbk.outcome(one)
     ref = reference_table(wb, overrides)
     for k, rv in ref.items():
         if rv is None or k in {kk for kk, _ in overrides}:
@@ -161,10 +166,12 @@ def replay(history, counter=None):
             counter.append(1)
         want = table.get(k)
         if want is None:
-            e1 = tr.executor()
-            if overrides:
-                e1.set_cells([mk(wb, kk, 'num', wbk.dec(v)) for kk, v in overrides])
-            want = table[k] = wbk.outcome(lambda: e1.get_cell(mk(wb, k, 'num')).value)
+            def one():
+                e1 = tr.executor()
+                if overrides:
+                    e1.set_cells([mk(wb, kk, 'num', wbk.dec(v)) for kk, v in overrides])
+                return e1.get_cell(mk(wb, k, 'num')).value
+            want = table[k] = wbk.outcome(one)
         if got[0] == 'timeout' or want[0] == 'timeout':
             return True
         if not same(got, want):
@@ -293,7 +300,8 @@ def build_machine(rec):
         @initialize(data=st.data())
         def init(self, data):
             n = data.draw(st.integers(1, 3))
-            titles = ['S', 'T', 'U'][:n]
+            # digit-only titles that differ from the sheet's own index: a title is a name, never a number
+            titles = data.draw(st.sampled_from([['S', 'T', 'U'], ['S', 'T', 'U'], ['2', '0', '1'], ['1', '2', '3'], ['Data', '0', '10']]))[:n]
             cells = {}
             for si in range(n):
                 for _ in range(data.draw(st.integers(2, 7))):
